@@ -112,7 +112,7 @@ def shrink(hist, pred):
 def check(run, replay=None):
     tier, seed = run.tier, run.seed
     rng = random.Random(seed * 7919 + 8)
-    coq_ok = C.standard_coq_phase(run, CID)
+    coq_ok = C.standard_coq_phase(run, CID, gens=("gaplist",))
     ok, msg = C.ensure_ocaml()
     bd = C.build_dir()
     exe = os.path.join(bd, "c08")
